@@ -1899,6 +1899,19 @@ Qed.
 Lemma perm_zlen {A} (a b : list A) : Permutation a b -> zlen a = zlen b.
 Proof. intro P. unfold zlen. now rewrite (Permutation_length P). Qed.
 
+Lemma regeom_devs cards : forall geom, map c_dev (regeom cards geom) = map c_dev cards.
+Proof.
+  induction cards as [|c cs IH]; intros [|g gs]; cbn [regeom map c_dev]; try reflexivity. now rewrite IH.
+Qed.
+
+Lemma regeom_field cards : forall geom,
+  dims_in_field cards -> Forall (fun g => 0 <= fst g < 65536 /\ 0 <= snd g < 65536) geom ->
+  dims_in_field (regeom cards geom).
+Proof.
+  unfold dims_in_field. induction cards as [|c cs IH]; intros [|g gs] D F; cbn [regeom]; auto.
+  inversion D; subst. inversion F; subst. constructor; [cbn [c_ncols c_nrows]; assumption | now apply IH].
+Qed.
+
 (* a start of the Lancero object (after Configure, or again) *)
 Lemma lancero_start_step l k (last0 : option (tables * string)) :
   (l_cfgerr l = false -> k_cards k = l_active l /\ NoDup (map c_dev (l_active l)) /\ dims_in_field (l_active l)) ->
@@ -1933,7 +1946,7 @@ Lemma step_preserves s k o :
   inv s k -> wf_op o -> snd (step s o) <> OPanic ->
   exists k', check_step k o (snd (step s o)) = Some k' /\ inv (fst (step s o)) k'.
 Proof.
-  intros (I1 & I2 & I3) W NP. destruct o as [avail req nsamp first sepCards sepCols geom| |pk|devs|n|n|n|row col rows cols|base today i offs mapn].
+  intros (I1 & I2 & I3) W NP. destruct o as [avail req nsamp first sepCards sepCols geom|geom|avail req nsamp first sepCards sepCols|pk|devs|n|n|n|row col rows cols|base today i offs mapn].
   - (* LRun *)
     cbn [step] in *. destruct W as [WL WG].
     destruct (lancero_configure (s_l s) avail req nsamp first sepCards sepCols geom) as [l1 ok] eqn:C.
@@ -1974,22 +1987,47 @@ Proof.
       * cbn [s_l k_cards]. intros _. rewrite E2. auto.
       * intros t' src' Ht. cbn [s_last] in Ht. injection Ht as <- <-. exact NDr.
   - (* LAgain *)
-    cbn [step] in *.
-    pose proof (lancero_start_step (s_l s) k None I2) as LS.
+    cbn [step] in *. cbn [wf_op] in W.
+    set (l1 := if l_cfgerr (s_l s) then s_l s else set_active (s_l s) (regeom (l_active (s_l s)) geom)) in *.
+    assert (PRE : l_cfgerr l1 = false ->
+                  regeom (k_cards k) geom = l_active l1 /\ NoDup (map c_dev (l_active l1)) /\ dims_in_field (l_active l1)).
+    { subst l1. destruct (l_cfgerr (s_l s)) eqn:E; [intro X; congruence|]. intros _.
+      destruct (I2 eq_refl) as (K & ND & F). cbn [set_active l_active]. rewrite K. repeat split.
+      - now rewrite regeom_devs.
+      - now apply regeom_field. }
+    pose proof (lancero_start_step l1 (mkC (regeom (k_cards k) geom) None) None PRE) as LS.
+    destruct (lancero_start l1) as [[l2 ob] r] eqn:ST. cbn [fst snd] in *.
+    destruct LS as ((E1 & E2) & NDr & OB).
+    destruct ob as [| sd mx sc | t mixed order nm gm | | | | |]; try contradiction.
+    + subst r. eexists. split; [reflexivity|].
+      assert (E : l_cfgerr l1 = true).
+      { unfold lancero_start in ST. destruct (l_cfgerr l1) eqn:E; [reflexivity|].
+        destruct (lancero_prepare l1) as [? [?|]]; discriminate. }
+      split; [reflexivity|]. split; [cbn [s_l]; intro X; congruence | intros ? ? X; discriminate X].
+    + subst r. eexists. split; [reflexivity|].
+      split; [reflexivity|]. split; [|intros ? ? X; discriminate X].
+      cbn [s_l k_cards]. intro X. rewrite E1 in X. rewrite E2. now apply PRE.
+    + destruct OB as (-> & CK & MS). cbn [k_cards] in CK. cbn [check_step]. rewrite CK, MS. cbn [andb].
+      eexists. split; [reflexivity|].
+      split; [reflexivity|]. split.
+      * cbn [s_l k_cards]. intro X. rewrite E1 in X. rewrite E2. now apply PRE.
+      * intros t' src' Ht. cbn [s_last] in Ht. injection Ht as <- <-. exact NDr.
+  - (* LMid *)
+    cbn [step] in *. destruct (l_cfgerr (s_l s)) eqn:CE.
+    { cbn [snd fst check_step]. eexists. split; [reflexivity|].
+      split; [reflexivity|]. split; [cbn [s_l]; intro X; congruence | intros ? ? X; discriminate X]. }
+    pose proof (lancero_start_step (s_l s) k None (fun _ => I2 eq_refl)) as LS.
     destruct (lancero_start (s_l s)) as [[l2 ob] r] eqn:ST. cbn [fst snd] in *.
     destruct LS as ((E1 & E2) & NDr & OB).
     destruct ob as [| sd mx sc | t mixed order nm gm | | | | |]; try contradiction.
     + subst r. eexists. split; [reflexivity|].
-      split; [reflexivity|]. split; [|intros ? ? X; discriminate X].
-      cbn [s_l k_cards]. intro X. rewrite E1 in X. rewrite E2. now apply I2.
+      split; [reflexivity|]. split; [cbn; intro X; discriminate X | intros ? ? X; discriminate X].
     + subst r. eexists. split; [reflexivity|].
-      split; [reflexivity|]. split; [|intros ? ? X; discriminate X].
-      cbn [s_l k_cards]. intro X. rewrite E1 in X. rewrite E2. now apply I2.
+      split; [reflexivity|]. split; [cbn; intro X; discriminate X | intros ? ? X; discriminate X].
     + destruct OB as (-> & CK & MS). cbn [check_step]. rewrite CK, MS. cbn [andb].
       eexists. split; [reflexivity|].
-      split; [reflexivity|]. split.
-      * cbn [s_l k_cards]. intro X. rewrite E1 in X. rewrite E2. now apply I2.
-      * intros t' src' Ht. cbn [s_last] in Ht. injection Ht as <- <-. exact NDr.
+      split; [reflexivity|]. split; [cbn; intro X; discriminate X|].
+      intros t' src' Ht. cbn [s_last] in Ht. injection Ht as <- <-. exact NDr.
   - (* APrep *)
     cbn [step] in *. destruct W as [WF WL]. destruct (abaco_sample pk) as [[sorted nchan]|] eqn:A.
     + cbn [snd fst check_step acc].
@@ -2068,7 +2106,7 @@ Proof.
 Qed.
 
 Definition ex_history : list op :=
-  [LRun [0;1;2;3] [3;0] 1 0 24 8 [(2,2);(1,2)]; Files "/data" "20260930" 0 [1;3;5] 6;
+  [LRun [0;1;2;3] [3;0] 1 0 24 8 [(2,2);(1,2)]; Files "/data" "20260930" 0 [1;3;5] 6; LAgain [(3,2)]; LMid [0;1;2;3] [0] 1 1 0 0; LAgain [];
    APrep [(4,4);(4,0)]; Files "/data" "20260930" 1 [] (-1); Files "/data" "20260930" 2 [] 7; TPrep 3; RcCode 5 1 40 8].
 Example ex_history_wf :
   Forall wf_op ex_history /\ ~ In OPanic (run state0 ex_history) /\
